@@ -23,6 +23,11 @@ def uf(name, *sorts):
 S, I, B = z3.StringSort(), z3.IntSort(), z3.BoolSort()
 
 
+def keypos(K, k):
+    """Position of key k in the enumeration K produced by list(d.keys()) (see builtins.dict_keys_enum)."""
+    return uf(f"keypos_{K.sort().name()}_{k.sort().name()}", K.sort(), k.sort(), z3.IntSort())(K, k)
+
+
 def str_count(s, sub):
     return uf("str_count", S, S, I)(s, sub)
 
@@ -60,6 +65,11 @@ def wf_conds(v, run):
         out.append(ty.size(t) >= 0)
     elif isinstance(ty, TSet):
         out.append(ty.size(t) >= 0)
+        # finite-set cardinality facts (true of every Python set): a member implies size >= 1
+        k = z3.FreshConst(ty.k.sort(), "k")
+        out.append(z3.ForAll([k], z3.Implies(z3.Select(ty.has(t), k), ty.size(t) >= 1)))
+        # ... and a non-empty set has an element (choice function)
+        out.append(z3.Implies(ty.size(t) > 0, z3.Select(ty.has(t), uf(f"choice_{ty.name}", ty.sort(), ty.k.sort())(t))))
     elif isinstance(ty, TOpt) and isinstance(ty.inner, (TRef,)):
         out.append(z3.Implies(z3.Not(ty.is_none(t)), z3.And(ty.get(t) > 0, ty.get(t) < run.next_ref)))
     return out
@@ -610,4 +620,28 @@ def is_none_like(v):
 
 # ------------------------------------------------------------------ comprehensions
 def comprehension(run, node, fr, kind):
+    from .interp import Frame
+    if kind == "dict" and len(node.generators) == 1 and not node.generators[0].ifs:
+        g = node.generators[0]
+        it = g.iter
+        if (isinstance(it, ast.Call) and isinstance(it.func, ast.Attribute) and it.func.attr == "items" and isinstance(g.target, ast.Tuple)
+                and len(g.target.elts) == 2 and all(isinstance(e, ast.Name) for e in g.target.elts)
+                and isinstance(node.key, ast.Name) and node.key.id == g.target.elts[0].id):
+            d = run.ev(it.func.value, fr)
+            if isinstance(d, Val) and isinstance(d.ty, TDict):
+                # {k: f(v) for k, v in d.items()}: same key set, values mapped pointwise (f evaluated as a total term)
+                kv = z3.FreshConst(d.ty.k.sort(), "ck")
+                f2 = Frame(fr.finfo, parent=fr)
+                f2.vars[g.target.elts[0].id] = Val(d.ty.k, kv)
+                f2.vars[g.target.elts[1].id] = Val(d.ty.v, z3.Select(d.ty.val(d.t), kv))
+                run.spec += 1
+                try:
+                    out = run.ev(node.value, f2)
+                finally:
+                    run.spec -= 1
+                rty = TDict(d.ty.k, out.ty, ordered=False)
+                vals = z3.FreshConst(z3.ArraySort(d.ty.k.sort(), out.ty.sort()), "cvals")
+                ax = z3.ForAll([kv], z3.Select(vals, kv) == out.t)
+                run.pc.append(ax)
+                return Val(rty, rty.mk(d.ty.has(d.t), vals, d.ty.size(d.t)))
     raise err(f"{kind} comprehension at line {node.lineno}: not supported here (give the function a contract-level stub or use `calls`)")
